@@ -187,7 +187,7 @@ type noClose struct{ desync.Store }
 func (noClose) Close() error { return nil }
 
 func runC03(c *fw.Case) {
-	if desyncBin() != "" && c.ChanceAdded(1, procRate(50), "c03.proc") {
+	if desyncBin() != "" && c.ChanceAdded(1, procRate(25), "c03.proc") {
 		runC03Proc(c)
 		return
 	}
